@@ -34,6 +34,17 @@ func checkC01(c *Ctx) {
 	c.newickGuards(wn)
 	c.newickParens(wn)
 	c.newickFloats([]*FuncInfo{wt, wn}, []*FuncInfo{pi, pp, si})
+	c.Decides("FMT-CONST: no text computed from a tree (Newick, names, comments) is used as a printf format string anywhere in the repository (a '%' in a label would be rewritten)")
+	nf, _ := c.fmtConst("FMT-CONST", c.All, "the same tip names, internal-node names ... comments", nil)
+	c.Extra["printf_like_calls"] = nf
+	if nf < 100 {
+		c.Undecided("FMT-CONST", "scan-count", 0, fmt.Sprintf("only %d printf-like calls seen (at least 100 confirmed by hand): the analysis no longer sees its subject", nf))
+	}
+	if fx := c.Fixture(); fx != nil {
+		sub := c.subCtx(fx)
+		_, nv := sub.fmtConst("FMT-CONST", fx, "", func(g *types.Func) bool { return g.Name() == "c01text" })
+		c.Control("FMT-CONST", nv == 1, "fixture.C01FormatText uses a computed text as format string")
+	}
 	c.Floor("FIELDS", 6)
 	c.Floor("TABLE", 5)
 	c.Floor("ORDER", 4)
